@@ -144,7 +144,8 @@ impl Decodable for Comparison {
             }
             2 => {
                 let indices_len = reader.read_u32().await? as usize;
-                let mut indices = Vec::with_capacity(indices_len);
+                // Do not trust the length for the initial capacity
+                let mut indices = Vec::with_capacity(indices_len.min(256));
                 for _ in 0..indices_len {
                     indices.push(reader.read_u64().await? as usize);
                 }
